@@ -342,7 +342,7 @@ def random_cases(draw):
     sep = draw(st.sampled_from(SEPS))
     pathattr = draw(st.sampled_from(["name", "name", "id"]))
     ic = draw(st.booleans())
-    names = [draw(st.one_of(name_strategy(sep), name_strategy(sep), st.integers(0, 12).map(lambda i: {"int": i}), st.tuples(st.sampled_from(["plain", "int", "str", "flag"]), st.integers(0, 2)).map(lambda t: {"enum": list(t)}), name_strategy(sep).map(lambda t: {"tag": t}), st.lists(st.integers(0, 3), max_size=2).map(lambda v: {"tup": v} if sep not in (" ", "-") else {"int": len(v)}))) for _ in range(size)]
+    names = [draw(st.one_of(name_strategy(sep), name_strategy(sep), st.sampled_from(["...", "....", ".x", "x."]), st.integers(0, 12).map(lambda i: {"int": i}), st.sampled_from(["etc", "a", "caf\u00e9", ""]).map(lambda t: {"bytes": t}), st.tuples(st.sampled_from(["plain", "int", "str", "flag"]), st.integers(0, 2)).map(lambda t: {"enum": list(t)}), name_strategy(sep).map(lambda t: {"tag": t}), st.lists(st.integers(0, 3), max_size=2).map(lambda v: {"tup": v} if sep not in (" ", "-") else {"int": len(v)}))) for _ in range(size)]
     unique = draw(st.integers(0, 9)) < 7
     if unique:
         names = uniquify(names, parents)
@@ -362,7 +362,7 @@ def random_cases(draw):
     names = [n if unambiguous(rr.name_text(n), sep) else "n%d" % i for i, n in enumerate(names)]
     links = draw(st.lists(st.integers(0, size - 1), max_size=3, unique=True)) if draw(st.integers(0, 3)) == 0 else []
     texts = [rr.name_text(n) for n in names]
-    comp = st.one_of(st.sampled_from(texts), st.sampled_from(texts), st.sampled_from(texts).map(lambda s: s.swapcase()), st.sampled_from(["..", "..", ".", "", "zz", "a"]), name_strategy(sep))
+    comp = st.one_of(st.sampled_from(texts), st.sampled_from(texts), st.sampled_from(texts).map(lambda s: s.swapcase()), st.sampled_from(["..", "..", ".", "", "zz", "a", "...", "...."]), name_strategy(sep))
     paths = []
     for _ in range(draw(st.integers(1, 8))):
         comps = draw(st.lists(comp, min_size=0, max_size=7))
@@ -395,20 +395,24 @@ def _enum_cases(max_nodes, index, count):
         size = shapes.shape_size(shape)
         parents = shapes.shape_to_parents(shape)
         base_names = [["a", "b", "A"][(i + (parents[i] or 0)) % 3] for i in range(size)]
-        for ic, dup in ((False, False), (True, False), (True, True), (False, True)):
+        for ic, dup in ((False, False), (True, False), (True, True), (False, True), (False, "dots"), (True, "dots")):
             # dup: siblings may be called 'a' and 'A' (equal when ignorecase): no round trip, but 'first matching child' applies
-            names = ["aA"[i % 2] for i in range(size)] if dup else uniquify(base_names, parents)
+            # dots: names made of dots only that are NOT the navigation components ('...', '....') are names like any other
+            if dup == "dots":
+                names = uniquify([["a", "...", "....", ".a"][(i + (parents[i] or 0)) % 4] for i in range(size)], parents)
+            else:
+                names = ["aA"[i % 2] for i in range(size)] if dup else uniquify(base_names, parents)
             for start in range(size):
                 k += 1
                 if k % count != index:
                     continue
                 paths = []
                 for length in range(0, 4):
-                    for comps in itertools.product(ENUM_COMPS, repeat=length):
+                    for comps in itertools.product(ENUM_COMPS if dup != "dots" else ["a", "...", "....", "..", ".", ".a", "....."], repeat=length):
                         paths.append([start, "/".join(comps)])
                         if length:
                             paths.append([start, "/" + "/".join(comps)])
-                yield {"shape": forest.to_list(shape), "names": names, "sep": "/", "pathattr": "name", "ignorecase": ic, "roundtrip": start == 0, "flip": 5, "paths": paths}
+                yield {"shape": forest.to_list(shape), "names": names, "sep": "/", "pathattr": "name", "ignorecase": ic, "roundtrip": start == 0 and dup != "dots", "flip": 5, "paths": paths}
 
 
 def plan(tier, seed):
